@@ -30,7 +30,12 @@ RULE = ('molecules: exhaustive C/O (N for Benson/PPY) skeletons up to 3 '
         'fractional coefficients and non-canonical spellings). Non-trivial = '
         'a (scheme, molecule) whose mapping AND per-atom names were compared '
         'with the reference, or whose failure was decided on both sides; '
-        'distinct by (scheme, canonical SMILES).')
+        'distinct by (scheme, canonical SMILES).'
+        ' Argument forms: SMILES text (canonical; ring molecules also in '
+        'two random atom orders) and, for a quarter of the molecules and '
+        'all with ~ / $ / [H], an RDKit Mol object. Synthetic schemes also '
+        'declare smarts_based_descriptors / smiles_based_descriptors from a '
+        'closed pattern table. ')
 ASSUMPTIONS = [
     'RDKit parsing, kekulisation, ring perception and stereo perception are '
     'input; molecules above the 10000-embedding cap are excluded',
